@@ -10,7 +10,8 @@ import Lattigo.Model.ParamsGen
     galels <nthRoot> <diags> <slots> <ratio>  → Galois elements (naive: in order; BSGS: sorted)
     alloc <diags> <logCols> <ratio>           → N1 <keys of Vec>
     at <keys> <i> <slots>                     → key found | err
-    permdiags <half> (M <row> <from> <to> <scaling>)*   → idx:vec|idx:vec
+    permdiags <half> (M <row> <from> <to> <scaling>)*   → idx:vec|idx:vec   (bgv: two rows; keys as the map has them)
+    permdiagsc <n> (M 0 <from> <to> <scaling>)*         → idx:vec|idx:vec   (ckks: one row)
     margin <moduli>                           → QiOverflowMargin / PiOverflowMargin (-1 without moduli);
                                                 executes the definition REGENERATED from core/rlwe/params.go
                                                 (Gen/Params.lean via Model/ParamsGen.lean, float64 semantics
@@ -190,6 +191,12 @@ def handle (toks : List String) : String :=
     match parseVec? qs with
     | some qs => toString (Lattigo.Model.ParamsGen.marginAll qs)
     | none => badOp
+  | "permdiagsc" :: n :: rest =>   -- ckks: one row of n slots
+    match parseNat? n, parsePerm rest with
+    | some n, some maps =>
+      let r := permDiagonals 1 n maps
+      if r.isEmpty then "-" else "|".intercalate (r.map fun kv => s!"{kv.1}:{showVec kv.2}")
+    | _, _ => badOp
   | "eval" :: rest => (evalLine rest).getD badOp
   | _ => badOp
 
